@@ -161,6 +161,8 @@ fn oracle(c: &Case, ctx: &mut Ctx) -> CaseResult {
 			if msg.contains("Latest counterparty commitment secret was invalid") && blocked_raa_update_lost_on_reload(&sim) {
 				// listed finding, matched on its mechanism (see known_findings.json)
 				Err(Failure::new("panic", format!("panic at {}: {}", loc, msg)).with_key("panic/commitment-secret-rejected/blocked-raa-update-dropped-on-stale-reload"))
+			} else if msg.contains("Attempted to apply post-force-close ChannelMonitorUpdate") && blocked_raa_update_lost_on_reload(&sim) {
+				Err(Failure::new("panic", format!("panic at {}: {}", loc, msg)).with_key("panic/post-force-close-update/blocked-update-id-reused-after-stale-reload"))
 			} else {
 				vcore::set_last_panic(Some((msg, loc)));
 				std::panic::resume_unwind(payload)
